@@ -156,6 +156,27 @@ def build(fam, archset="x86", extra_flags=(), main="main.cpp", with_scalar=True,
     return exe
 
 
+def build_single(src, tag, flags, compiler="g++"):
+    """compile one harness source file to an executable, cached by content hash"""
+    hh = hashlib.sha256()
+    hh.update(repo_hash().encode())
+    hh.update(_hash_tree(HARNESS, (".hpp", ".cpp", ".inc")).encode())
+    hh.update(" ".join([compiler, src, tag] + list(flags)).encode())
+    parent = os.path.join(BUILD, "h", "single_" + slug(tag))
+    out = os.path.join(parent, hh.hexdigest()[:16])
+    exe = os.path.join(out, "prog")
+    if os.path.exists(exe):
+        return exe
+    os.makedirs(out, exist_ok=True)
+    r = sh([compiler] + list(flags) + ["-w", "-D%s=1" % GUARD, "-I" + os.path.join(REPO, "include"), "-I" + HARNESS, os.path.join(HARNESS, src), "-o", exe + ".tmp"])
+    if r.returncode != 0:
+        shutil.rmtree(out, ignore_errors=True)
+        raise InfraError("build of %s failed: %s" % (src, r.stdout[-3000:]))
+    os.replace(exe + ".tmp", exe)
+    _prune(parent, 2)
+    return exe
+
+
 def run_plan(exe, plan_path, out_path, watchdog_ms=0, timeout=3600):
     r = sh([exe, plan_path, out_path, str(watchdog_ms)], timeout=timeout)
     if r.returncode != 0:
